@@ -11,6 +11,7 @@ from prosemirror.model.replace import ReplaceError
 from .. import core, gen, schemas
 from ..codec import doc_tokens, frag_tokens
 from ..core import outcome
+from . import c02_frag
 
 
 def slice_tokens(schema, sl):
@@ -65,6 +66,11 @@ def run(ctx):
     def flush():
         outs = ctx.driver.run(reqs) if reqs else []
         for req, meta, out in zip(reqs, metas, outs):
+            if meta[0] == "fo":
+                # the Fragment-object tie (c02_frag.py)
+                ctx.count("model_requests")
+                c02_frag.compare(ctx, meta, out)
+                continue
             op, info, d, args, (st, val) = meta
             ctx.count("model_requests")
             if "bad" in out:
@@ -91,6 +97,8 @@ def run(ctx):
         docs = [gen.gen_doc(rng, info.schema, budget=rng.choice([8, 15, 30])) for _ in range(ctx.budget(6, 12))]
         pools.append((info, docs))
         ctx.count("schema:" + info.name)
+    # ---- the Fragment constructors and copy-on-write operations on generated node arrays (c02_frag.py)
+    c02_frag.run(ctx, pools, reqs, metas, flush)
     per_doc = ctx.budget(14, 60)
     for info, docs in pools:
         schema = info.schema
